@@ -398,7 +398,7 @@ func (rc *ruleCtx) wiring() {
 		if x.In.Origin == "X" && k != "task" && k != "pred" {
 			continue
 		}
-		if x.In.Kind != "flow" {
+		if x.In.Kind != "flow" && x.In.Kind != "modflow" {
 			continue
 		}
 		call := j.Calls[0]
@@ -454,7 +454,7 @@ func (rc *ruleCtx) wiring() {
 		}
 	}
 	// V7
-	if x.In.Kind != "flow" {
+	if x.In.Kind != "flow" && x.In.Kind != "modflow" {
 		return
 	}
 	type tgt struct {
